@@ -237,6 +237,17 @@ func genConn(rng *rand.Rand, seed int64) *Scenario {
 		if rng.Intn(2) == 0 {
 			sc.Steps = append(sc.Steps, Step{At: p + time.Duration(rng.Int63n(int64(g))), Kind: "partition", Inst: 1, N: 0})
 		}
+	case 3:
+		if n == 2 {
+			// the follower's connection bounces as well (nothing to verify for a follower); later the leader leaves with
+			// its record and no notification of that reaches the follower: its periodic check alone must find the vacancy
+			sc.ConnOnly = false
+			sc.WatchDrop = 1
+			sc.Steps = append(sc.Steps, Step{At: h + time.Duration(rng.Int63n(int64(h))), Kind: "disconnect", Inst: 2},
+				Step{At: 2*h + time.Duration(rng.Int63n(int64(h))), Kind: "reconnect", Inst: 2},
+				Step{At: t + 2*h, Kind: "stopctx", Inst: 1, Del: true})
+			t += 4 * h
+		}
 	case 2: // a stop in the middle
 		sc.Steps = append(sc.Steps, Step{At: 2*h + time.Duration(rng.Int63n(int64(g+h))), Kind: []string{"stop", "stopctx"}[rng.Intn(2)], Inst: 1})
 		if rng.Intn(2) == 0 {
@@ -279,6 +290,10 @@ func genFaults(rng *rand.Rand, seed int64) *Scenario {
 	if rng.Intn(3) == 0 {
 		// a Status() call that overlaps the first demotion of the first instance (issued from inside its critical section)
 		sc.Triggers = append(sc.Triggers, Trigger{Inst: 1, Nth: 1, Phase: "observe", Step: Step{Kind: "snap", Inst: 1}})
+	} else if rng.Intn(3) == 0 {
+		// … or a Stop that begins while that demotion is inside its critical section (the demotion's callback is still to come)
+		// (at the gauge write, when the transition and the flag have been recorded: the model has no stop call inside a transition)
+		sc.Triggers = append(sc.Triggers, Trigger{Inst: 1, Nth: 1, Phase: "unflag", Step: Step{Kind: "stop", Inst: 1}})
 	}
 	from := 2*h + time.Duration(rng.Int63n(int64(3*h)))
 	dur := time.Duration(rng.Int63n(int64(8 * h)))
@@ -484,6 +499,16 @@ func genTakeover(rng *rand.Rand, seed int64) *Scenario {
 		is.Takeover = rng.Intn(3) > 0 && is.Prio > 0
 		if rng.Intn(4) == 0 {
 			is.Promote = "block"
+		}
+		if rng.Intn(4) == 0 {
+			// a health checker that reports unhealthy on a few early ticks and is fine ever after: whatever the heartbeat loop
+			// counted in an earlier term is no business of a later acquisition or takeover
+			is.HasHealth = true
+			is.MaxFail = 1 + rng.Intn(3)
+			for k := 0; k < 2+rng.Intn(4); k++ {
+				is.Health = append(is.Health, []int{0, 0, 1}[rng.Intn(3)])
+			}
+			sc.Responsive = false // (terms that end for health: not the steady incumbent the promptness model assumes)
 		}
 		sc.Insts = append(sc.Insts, is)
 		sc.Steps = append(sc.Steps, Step{At: time.Duration(rng.Int63n(int64(6 * h))), Kind: "start", Inst: i})
@@ -897,6 +922,9 @@ func genMix(rng *rand.Rand, seed int64) *Scenario {
 		is := InstSpec{ID: i, Group: "g", TTL: ttl, H: h}
 		if twoGroups && i%2 == 0 {
 			is.Group = "h" // a second election group in the same bucket
+			if seed%2 == 0 {
+				is.Group = "g#" // (… whose name differs from "g_" or "g" only in a character a key would not allow)
+			}
 		}
 		if rng.Intn(3) == 0 {
 			is.Prio = rng.Intn(4)
